@@ -177,3 +177,22 @@ Fixpoint py_nths {A} (l : list A) (ix : list nat) : option (list A) :=
               | _, _ => None
               end
   end.
+
+(* dict with identity-hashed keys, as an association list: d[k] (None <-> KeyError), d[k] = v *)
+Fixpoint py_dict_get {K V} (eqb : K -> K -> bool) (k : K) (d : list (K * V)) : option V :=
+  match d with
+  | [] => None
+  | (k', v) :: r => if eqb k k' then Some v else py_dict_get eqb k r
+  end.
+
+Fixpoint py_dict_set {K V} (eqb : K -> K -> bool) (k : K) (v : V) (d : list (K * V)) : list (K * V) :=
+  match d with
+  | [] => [(k, v)]
+  | (k', v') :: r => if eqb k k' then (k, v) :: r else (k', v') :: py_dict_set eqb k v r
+  end.
+
+(* l.sort(key=d.__getitem__, ...): KeyError unless every element is a key *)
+Definition py_dict_has_all {K V} (eqb : K -> K -> bool) (l : list K) (d : list (K * V)) : bool :=
+  forallb (fun k => py_is_some (py_dict_get eqb k d)) l.
+Definition py_dict_key {K} (eqb : K -> K -> bool) (d : list (K * Z)) (k : K) : Z :=
+  match py_dict_get eqb k d with Some v => v | None => 0 end.
